@@ -194,6 +194,65 @@ Definition build_reply (start : Res scte) (ops : list sig_op) : val :=
     VL [VB out; view_scte s2; VB (s_data s1); VB (s_data s2);
         vres view_scte (new_scte35 (0 :: out))]) start.   (* decoding what was just encoded, pointer_field 0 *)
 
+
+(* ---------------- scte.hist: ONE signal observed after every step; arguments taken from its own getters ----------------
+   [9 i [32 sels]]  Descriptors()[i].SetMID(list of own MID() entries (an index) and fresh UPIDs ([ty xbytes]))
+   [9 i [33 sels]]  Descriptors()[i].SetComponents(own Components() entries by index)
+   [9 i [34]]       Descriptors()[i].SetUPID(own UPID())
+   [10 sels]        SetDescriptors(own Descriptors() by index, no repetition)
+   [11]             SetCommandInfo(own CommandInfo())
+   A value obtained from a getter is a copy in Gallina: each of these is resolved, against the current state, into the
+   ordinary setter call with that value, which is what an implementation without aliasing does. *)
+Definition pick {A} (own : list A) (v : val) : option (list A) :=
+  match v with
+  | VI j => Some (if (j <? 0)%Z then [] else match nth_error own (Z.to_nat j) with Some x => [x] | None => [] end)
+  | _ => None
+  end.
+Definition sel_mid (own : list Scte.upid) (v : val) : option (list (N * bytes)) :=
+  match v with
+  | VI _ => do l <- pick own v; Some (map (fun u => (u_type u, u_upid u)) l)
+  | _ => do e <- p_upid_new v; Some [e]
+  end.
+Definition ext_descop (d : segdesc) (v : val) : option desc_op :=
+  match v with
+  | VL [VI 32%Z; VL sels] => do l <- p_list (sel_mid (get_mid d)) sels; Some (DSetMID (List.concat l))
+  | VL [VI 33%Z; VL sels] =>
+    do l <- p_list (pick (d_components d)) sels; Some (DSetComponents (map (fun c => (co_tag c, co_off c)) (List.concat l)))
+  | VL [VI 34%Z] => Some (DSetUPID (get_upid d))
+  | _ => p_descop v
+  end.
+Definition ext_step (s : scte) (v : val) : option scte :=
+  match v with
+  | VL [VI 9%Z; VI i; o] =>
+    if (i <? 0)%Z then Some s else
+    match nth_error (s_descs s) (Z.to_nat i) with
+    | Some d => do o' <- ext_descop d o; Some (apply_sig_op s (SDesc (Z.to_nat i) o'))
+    | None => Some s
+    end
+  | VL [VI 10%Z; VL sels] =>
+    do l <- p_list (pick (s_descs s)) sels; Some (with_descs s (map (set_owner (Some (s_id s))) (List.concat l)))
+  | VL [VI 11%Z] => Some (with_cmd s (cmd_type (s_cmd s)) (s_cmd s))
+  | _ => do o <- p_sigop v; Some (apply_sig_op s o)
+  end.
+Fixpoint hist_views (s : scte) (script : list val) : option (list val) :=
+  match script with
+  | [] => Some []
+  | v :: t => do s' <- ext_step s v; do r <- hist_views s' t; Some (view_scte s' :: r)
+  end.
+Definition hist_reply (start : Res scte) (script : list val) : val :=
+  match start with
+  | Ok s0 => match hist_views s0 script with Some l => VL [VI 0%Z; VL (view_scte s0 :: l)] | None => vbad end
+  | r => vres view_scte r
+  end.
+
+(* generator aid: is every state on which the script calls UpdateData inside the hypotheses of C09_encode_canonical? *)
+Fixpoint hist_normal (s : scte) (script : list val) : option bool :=
+  match script with
+  | [] => Some true
+  | v :: t => do s' <- ext_step s v; do r <- hist_normal s' t;
+              Some ((match v with VL [VI 7%Z] => isnormal s | _ => true end) && r)
+  end.
+
 Open Scope string_scope.
 Definition ops : list op := [
   ("scte.decode", fun a => match a with
@@ -206,6 +265,10 @@ Definition ops : list op := [
      | [VL []; VL l] => match p_list p_sigop l with Some ops => build_reply (Ok create_scte35) ops | None => vbad end
      | [VL [VB b]; VL l] => match p_list p_sigop l with Some ops => build_reply (new_scte35 b) ops | None => vbad end
      | _ => vbad end);
+  ("scte.hist", fun a => match a with
+     | [VL []; VL l] => hist_reply (Ok create_scte35) l
+     | [VL [VB b]; VL l] => hist_reply (new_scte35 b) l
+     | _ => vbad end);
   (* generator aid (modelexec only): is the state after the script inside the hypotheses of C09_encode_canonical?
      ScteNormalB.isnormal_ok : isnormal st = true -> normal (foreign_of st) st *)
   ("scte.isnormal", fun a => match a with
@@ -214,6 +277,12 @@ Definition ops : list op := [
                             | Some ops, Ok s0 => vbool (isnormal (run_script s0 ops))
                             | Some _, _ => vbool false
                             | None, _ => vbad end
+     | _ => vbad end);
+  ("scte.histnormal", fun a => match a with
+     | [VL []; VL l] => match hist_normal create_scte35 l with Some b => vbool b | None => vbad end
+     | [VL [VB b]; VL l] => match new_scte35 b with
+                            | Ok s0 => match hist_normal s0 l with Some b => vbool b | None => vbad end
+                            | _ => vbool false end
      | _ => vbad end);
   ("scte.crc", fun a => match a with [VB b] => VB (crc_model b) | _ => vbad end);
   ("ser.scte", fun a => match a with
